@@ -49,6 +49,9 @@ class HttpShard(ShardCMC):
     def read_bytes(self, offset: int, length: int) -> bytes:
         if not self.can_read_cmc:
             raise ShardedIOError("Shard cannot read")
+        if length == 0:
+            # an empty byte range cannot be expressed in a Range header
+            return b""
 
         file_url = f"{self.base_url}{self.shard_key_str}"
         if self.is_legacy:
@@ -74,6 +77,10 @@ class HttpShard(ShardCMC):
 
     def fetch_cmc_chunk(self, cmc: np.uint64):
         minishard_key = self.get_minishard_key(cmc)
+        # populate_minishard_dict fills ro_minishard_dict with the minishards
+        # read from the shard index
+        if minishard_key in self.ro_minishard_dict:
+            return self.ro_minishard_dict[minishard_key].fetch_cmc_chunk(cmc)
         assert minishard_key in self.minishard_dict
         return self.minishard_dict[minishard_key].fetch_cmc_chunk(cmc)
 
